@@ -178,7 +178,7 @@ PROPS['C18'] = {
                 '*': 'c18_parsers'},
     'not_covered': [
         'TRUSTED: make_query (its renaming is proved in unit rename for well-formed terms; that parsed terms are well formed is not proved)',
-        'ASSUMED clause of tokenize (used by generate_goal): the text cut right after an opening parenthesis, and the first text cut, is not itself a separator or parenthesis symbol, '
+        'PROVED (it used to be assumed): every opening-parenthesis token tokenize returns is followed by a subgoal or another opening parenthesis and the list starts with one of the two - from an invariant over the pending text (all white space, or containing a character that is no separator; no opening parenthesis alone) and the typing of make_leaf_token by the trimmed text. Trusted for it: white space is none of the characters the tokenizer gives a meaning to (axiom_ws_is_not_a_symbol, T3), a &str is determined by its characters (axiom_str_ext, T2), str::trim is a function (trimmed)',
         'so that every token group starts with a subgoal or a nested group (argument in DESIGN.md 8.8; exercised by the bounded oracle on every run). Everything else about the tokenizer is proved, '
         'including that the grouping functions only build trees that token_tree_to_goal accepts (its three panics are unreachable)',
         'usize is 64 bits (global size_of usize == 8) in the token units',
